@@ -7,6 +7,8 @@ judge); it is known to be false for the non-blocking FIRST_AVAILABLE out-branch 
 -/
 import FsVerif.Model.Node.Machine
 import FsVerif.Model.Node.Source
+import FsVerif.Proofs.MachineSel
+import FsVerif.Props.C09
 namespace FsVerif.Props.C15
 open FsVerif
 
@@ -73,5 +75,37 @@ theorem source_rejects_out_of_range (s : SrcState) (t : Nat) (a : Ans) (k : Int)
     (s.behaviour t a).2 = [.sel k, .crash .index] ∧ (s.behaviour t a).1.pc = .dead := by
   unfold SrcState.behaviour
   simp [hpc, hpol, selIdx, hs, hk, SrcState.crash]
+
+/-! ### "The selection history a node records equals the routing that actually happened" - Machine, in-edge side, every schedule.
+While the machine waits for the reservation it placed on the in-edge `e` it SELECTED (ROUND_ROBIN, constant, user callable / generator),
+`e` is the last entry of `in_edge_selection`; the `get` it issues when that token is granted is a get on `e`.  Under FIRST_AVAILABLE the
+edge of the get and the entry recorded are chosen in the same activation and are the same index. -/
+
+theorem machine_selected_edge_is_recorded (cfg : MacCfg) (acts : List MacState.Act) (e tok : Nat)
+    (h : (MacState.runActs (MacState.init cfg) acts).bpc = .inTok e tok) :
+    (MacState.runActs (MacState.init cfg) acts).insel.getLast? = some e :=
+  MacState.runActs_ins acts (MacState.init_ins cfg) e tok h
+
+theorem machine_pulls_from_selected_edge (s : MacState) (t : Nat) (a : Ans) (e tok : Nat) (it : GotItem) (rest : List GotItem)
+    (hpc : s.bpc = .inTok e tok) (ht : a.trig.contains tok = true) (hi : a.items = it :: rest) :
+    ∃ tail, (s.behaviour t a).2 = Call.get e tok it.id :: tail := by
+  unfold MacState.behaviour
+  simp only [hpc, ht, hi, Bool.not_true, Bool.false_eq_true, ↓reduceIte]
+  unfold MacState.afterPull
+  split
+  · exact ⟨_, rfl⟩
+  · exact ⟨_, rfl⟩
+
+theorem machine_first_available_records_pull (s : MacState) (t : Nat) (a : Ans) (toks : List Nat) (idx d : Nat) (it : GotItem)
+    (rest : List GotItem) (ds : List Nat)
+    (hpc : s.bpc = .inAny toks) (hf : firstTrig toks a.trig = some idx) (hi : a.items = it :: rest) (hdraw : a.draws = d :: ds) :
+    (s.behaviour t a).1.insel = s.insel ++ [idx] ∧ Call.get idx (toks.getD idx 0) it.id ∈ (s.behaviour t a).2 := by
+  unfold MacState.behaviour
+  simp [hpc, hf, hi, MacState.afterPull, hdraw, MacState.requestSlot]
+  split <;> simp
+
+/-- non-vacuity on the RECORDED run of Props/C09 (blocking machine, FIRST_AVAILABLE in): the recorded history [0, 0, 0] is the
+    sequence of in-edges the three pulls used -/
+example : (MacState.runActs (MacState.init { wc := 1, blocking := true }) C09.demoBlocking).insel = [0, 0, 0] := by decide +kernel
 
 end FsVerif.Props.C15
